@@ -7,6 +7,7 @@ import OrbitModel.Proofs.CrashExample
 import OrbitModel.Proofs.CacheReach
 import OrbitModel.Proofs.LoadChecked
 import OrbitModel.Proofs.WriteKeeps
+import OrbitModel.Proofs.GenEqLoadJoin
 /-!
 # C05 — acknowledged writes and replicated entries survive restart and crashes
 
@@ -175,5 +176,11 @@ theorem write_after_snapshot_load_forgot_later_writes_before_the_fix :
     has (afterSnapshot.addOp0 acl w6).1.log.entries 5 = false ∧
     (afterSnapshot.addOp acl w6).1.localHeads = some [6, 5] :=
   LoadExample.write_on_partial_store_witness
+
+/-- the Go text of `Load` in this run performs, for one cached head, the steps the models assume, in
+their order: fetch, the two checks that end the load with an error (ended context, head that did not
+come back: F32), the filters (own log, not held, accepted, signed), the merge without a trim, the trim
+only when the listing is longer than the limit -/
+theorem load_steps_tied_to_go_text : Gen.loadJoinOrder = Order.loadJoin := gen_loadJoin_order
 
 end Orbit.C05
